@@ -6,11 +6,6 @@ BASE_NOTE = ('Trusted: Coq 8.16.1 kernel and vm_compute (no native_compute); no 
              '+ ocaml/driver_tail.ml (sampled against vm_compute on every run); the hand-written model is tied to /repo by the '
              'correspondence run of this check (same cases through implementation and model, all observables compared); ')
 CHECKS = {
- 'C20': dict(text='Theorems over the executable model of biom/err.py (reaction table, refusal without change, scoped restore for every '
-                  'nesting and both exit modes, by induction on programs); the model is tied to the code by differential execution of '
-                  'random bracketed programs and of the 7x5 reaction table at real call sites.',
-             note='numpy/warnings/stdout capture; exceptions caught directly outside each block.',
-             technique='Coq proof over executable model + correspondence run', design='5 C20'),
 }
 PENDING = {}
 import glob
